@@ -139,9 +139,39 @@ def extra(ck):
     stress_part(ck)
 
 
+def extra_lines(rng, tier):
+    """Programs built around one order: a matcher and an amender / canceller (sometimes two) meet on an Iceberg, Reserve or
+    Standard maker, so that the windows between a lookup and the removal, and between a removal and the re-insertion,
+    are hit in every run rather than by luck."""
+    from . import gen
+    out = []
+    for i in range(300 if tier == "quick" else 6000):
+        kind = rng.choice(["I", "I", "R", "R", "S"])
+        q = rng.choice([3, 6, 10, 20])
+        h = rng.choice([0, 4, 9, 30]) if kind != "S" else 0
+        o = gen.order(kind, oid="u1", price=100, side="S", ts=5, tif="GTC", vis=q, hid=h, thr=rng.choice([0, 1, 5]),
+                      amt=rng.choice([None, 0, 2, 10]), auto=rng.random() < 0.8)
+        setup = ["ADD " + o]
+        if rng.random() < 0.4:
+            setup.append("ADD " + gen.order("S", oid="l2", price=100, side="S", ts=6, tif="GTC", vis=rng.choice([1, 5])))
+        m = rng.choice([1, 2, q - 1, q, q + 1, q + h, 100])
+        upd = lambda: rng.choice(["UPD UQ:u1:%d" % rng.choice([0, 1, 2, q - 1, q, q + 5, 40]), "UPD C:u1",
+                                  "UPD RP:u1:100:%d:S" % rng.choice([1, q + 3]), "UPD UPQ:u1:100:%d" % rng.choice([2, q + 1])])
+        threads = ["MATCH %d u9000" % m, upd()]
+        x = rng.random()
+        if x < 0.3:
+            threads.append(upd())
+        elif x < 0.5:
+            threads.append("MATCH %d u9001" % rng.choice([1, 3, q]))
+        elif x < 0.6:
+            threads[1] += ";" + upd()
+        out.append("w%d|100|%s|%s|%s%d|drain,mode=O" % (i, ";".join(setup), "#".join(threads), rng.choice("rp"), rng.randint(1, 10 ** 9)))
+    return out
+
+
 def run(tier, seed, replay=None):
     return run_conc_property(
-        "C03", tier, seed, replay,
+        "C03", tier, seed, replay, extra_lines=extra_lines,
         judges=[("aggregates at quiescence", judge_quiescent_agg),
                 ("per-order conservation", conc.judge_ledger)],
         n_quick=2500, n_thorough=60000, extra_obligations=extra)
